@@ -11,6 +11,8 @@
 -/
 import PsutilModel.Proofs.C13Misc
 import PsutilModel.Proofs.C13Full
+import PsutilModel.Proofs.C13Inherit
+import PsutilModel.Proofs.C13Pct
 import PsutilModel.Model.C13Gen
 namespace Psutil.C13
 open Psutil Psutil.C13.Spec
@@ -219,5 +221,182 @@ theorem C13_nonuniform_keys_inherit :
       ∧ firstNums (memoryMaps { cfg with dictPerBlock := true } (fun _ => .missing) false [49, 45, 50, 32, 114, 32, 48, 32, 48, 58, 48, 32, 48, 10, 82, 115, 115, 58, 32, 53, 32, 107, 66, 10, 51, 45, 52, 32, 114, 32, 48, 32, 48, 58, 48, 32, 48, 10, 80, 115, 115, 58, 32, 49, 32, 107, 66, 10])
         = [some 5120, some 0] := by
   constructor <;> decide
+
+/-! ## memory_maps when the mappings do NOT all print the same key list
+
+  `get_blocks` creates its dict once (`cfg.dictPerBlock = false`, a translator fact) and never
+  clears it. The kernel prints the same key list for every mapping of one read (validated on the
+  live `/proc/self/smaps` on every run), so this is latent; the theorems below say exactly what
+  the code as it is does on every other file, and exactly which files it gets right. -/
+
+/-- the dict of `get_blocks` is created once -/
+theorem cfg_dict_once : cfg.dictPerBlock = false := by decide
+
+theorem maps_inherit (c : Cfg) (hg : c.Good) (probe : Bytes → Probe) (zombie : Bool)
+    (ms : List Mapping) (hne : ms ≠ []) (hwf : wfSmapsOwn c.stripsPath ms = true)
+    (hfs : ∀ m ∈ ms, fsConsistent probe m = true) :
+    memoryMaps c probe zombie (renderSmaps ms) = .ok (inheritRows c.dictPerBlock [] ms) := by
+  cases ms with
+  | nil => exact absurd rfl hne
+  | cons m ms' =>
+    have hw := wfSmapsOwn_spec hwf
+    rw [memoryMaps_eq_blocks_own c probe zombie m ms' hw]
+    exact blocks_inherit c hg probe m ms' [] [] hw hfs rep_nil
+
+/-- **C13_maps_nonuniform_exact.** For EVERY non-empty list of mappings, each well-formed for its
+    own key list (no common key list): the code as it is reports, for row `i` and key `k`, 1024 ×
+    the value of `k` in the LATEST mapping `j ≤ i` that printed `k` (0 if none did) — address
+    range, permissions and path are always the mapping's own. -/
+theorem C13_maps_nonuniform_exact (probe : Bytes → Probe) (zombie : Bool) (ms : List Mapping)
+    (hne : ms ≠ []) (hwf : wfSmapsOwn false ms = true)
+    (hfs : ∀ m ∈ ms, fsConsistent probe m = true) :
+    memoryMaps cfg probe zombie (renderSmaps ms) = .ok (inheritRows false [] ms) := by
+  have h := maps_inherit cfg cfg_good probe zombie ms hne
+  rw [cfg_keeps_names, cfg_dict_once] at h
+  exact h hwf hfs
+
+/-- **C13_maps_right_iff_no_stale_key.** … and that answer is the promised one (`map specRow`)
+    if and only if no mapping omits a row key whose latest earlier value is non-zero. -/
+theorem C13_maps_right_iff_no_stale_key (probe : Bytes → Probe) (zombie : Bool) (ms : List Mapping)
+    (hne : ms ≠ []) (hwf : wfSmapsOwn false ms = true)
+    (hfs : ∀ m ∈ ms, fsConsistent probe m = true) :
+    memoryMaps cfg probe zombie (renderSmaps ms) = .ok (ms.map specRow) ↔ noStale [] ms = true := by
+  rw [C13_maps_nonuniform_exact probe zombie ms hne hwf hfs, ← inheritRows_eq_iff]
+  constructor
+  · intro h; injection h
+  · intro h; rw [h]
+
+/-- **C13_maps_roundtrip_general.** The round trip without the uniform-keys hypothesis: any
+    key lists, as long as no row key goes stale. -/
+theorem C13_maps_roundtrip_general (probe : Bytes → Probe) (zombie : Bool) (ms : List Mapping)
+    (hne : ms ≠ []) (hwf : wfSmapsOwn false ms = true) (hns : noStale [] ms = true)
+    (hfs : ∀ m ∈ ms, fsConsistent probe m = true) :
+    memoryMaps cfg probe zombie (renderSmaps ms) = .ok (ms.map specRow) :=
+  (C13_maps_right_iff_no_stale_key probe zombie ms hne hwf hfs).mpr hns
+
+/-- **C13_uniform_keys_never_stale.** The kernel-reachable files (every mapping prints the same
+    key list) are all on the right side of that line. -/
+theorem C13_uniform_keys_never_stale (ms : List Mapping) (h : uniformKeys ms = true) :
+    noStale [] ms = true := by
+  unfold uniformKeys at h
+  simp only [List.all_eq_true, beq_iff_eq] at h
+  exact noStale_of_uniform (keysOf ms) [] ms (fun _ hx => nomatch hx) h
+
+/-- **C13_maps_per_block_dict_full.** A `get_blocks` that starts every mapping with an empty dict
+    satisfies the round trip for ALL key lists (the full statement, no staleness condition). -/
+theorem C13_maps_per_block_dict_full (probe : Bytes → Probe) (zombie : Bool) (ms : List Mapping)
+    (hne : ms ≠ []) (hwf : wfSmapsOwn false ms = true)
+    (hfs : ∀ m ∈ ms, fsConsistent probe m = true) :
+    memoryMaps { cfg with dictPerBlock := true } probe zombie (renderSmaps ms) = .ok (ms.map specRow) := by
+  have hg : Cfg.Good { cfg with dictPerBlock := true } := by constructor <;> decide
+  have h := maps_inherit { cfg with dictPerBlock := true } hg probe zombie ms hne
+    (by simpa [cfg_keeps_names] using hwf) hfs
+  rw [h]
+  exact congrArg _ (inheritRows_perBlock ms)
+
+/-- the full statement (round trip for every key lists) — false of the code as it is -/
+def C13_maps_roundtrip_any_keys_Full : Prop :=
+  ∀ (probe : Bytes → Probe) (zombie : Bool) (ms : List Mapping), ms ≠ [] → wfSmapsOwn false ms = true →
+    (∀ m ∈ ms, fsConsistent probe m = true) →
+    memoryMaps cfg probe zombie (renderSmaps ms) = .ok (ms.map specRow)
+
+/-- two anonymous mappings, the first prints `Rss: 5 kB`, the second only `Pss: 1 kB` -/
+def mRss : Mapping :=
+  { lo := 4096, hi := 8192, r := true, w := false, x := false, shared := false, off := 0, maj := 0,
+    min := 0, ino := 0, path := none, deleted := false, kv := [⟨[82, 115, 115], 5, true⟩], flags := none }
+def mPss : Mapping := { mRss with lo := 8192, hi := 12288, kv := [⟨[80, 115, 115], 1, true⟩] }
+
+example : wfSmapsOwn false [mRss, mPss] = true ∧ noStale [] [mRss, mPss] = false
+    ∧ uniformKeys [mRss, mPss] = false := by decide
+
+theorem C13_maps_roundtrip_any_keys_counterexample : ¬ C13_maps_roundtrip_any_keys_Full := by
+  intro h
+  have := (C13_maps_right_iff_no_stale_key (fun _ => .missing) false [mRss, mPss] (by decide) (by decide)
+    (by decide)).mp (h _ _ _ (by decide) (by decide) (by decide))
+  revert this
+  decide
+
+/-! ## memory_percent end to end: where the total comes from -/
+
+theorem pcfg_good : pcfg.Good := by
+  constructor <;> decide
+
+/-- **C13_meminfo_total.** `virtual_memory().total` is the kernel's `MemTotal` line × 1024, for
+    every well-formed `/proc/meminfo` (any set of other lines). -/
+theorem C13_meminfo_total (ls : List KV) (hw : wfMeminfo ls = true) :
+    vmTotal pcfg (renderMeminfo ls) = .ok (memTotal ls) :=
+  vmTotal_rendered pcfg pcfg_good ls hw
+
+/-- **C13_percent_end_to_end.** From the texts of `statm`, `smaps` and `meminfo`, with nothing
+    cached yet: `memory_percent(t)` = 100 · field / (MemTotal × 1024) for EVERY field of
+    `pfullmem` (uss / pss / swap read the per-mapping listing), ValueError when the total is 0;
+    afterwards `_TOTAL_PHYMEM` holds that total. -/
+theorem C13_percent_end_to_end (pagesize : Nat) (st : Statm) (ms : List Mapping) (rollup : FileRes)
+    (hne : ms ≠ []) (hwf : wfSmaps false ms = true) (ls : List KV) (hm : wfMeminfo ls = true)
+    (memtype : String) (v : Nat)
+    (hv : (pfullmemNames.zip (specFullInfo pagesize st ms)).lookup memtype = some v)
+    (s : PState) (hs : s.cache = none ∨ s.cache = some 0) :
+    memoryPercentS cfg pcfg memtype (memoryInfo cfg pagesize (renderStatm st))
+        (memoryFullInfo cfg false pagesize rollup (renderSmaps ms) (renderStatm st)) (renderMeminfo ls) s
+      = (if 0 < memTotal ls then .ok (specPercent v (memTotal ls)) else .error .valueError,
+         ⟨some (memTotal ls)⟩) := by
+  rw [(C13_statm pagesize st).1, C13_full_info_sums pagesize st ms rollup hne hwf]
+  have hval := pctValue_ok cfg cfg_good memtype (specMemInfo pagesize st) (specFull ms).uss (specFull ms).pss
+    (specFull ms).swap rfl v hv
+  have hval' : pctValue cfg memtype (.ok (specMemInfo pagesize st)) (.ok (specFullInfo pagesize st ms)) = .ok v := hval
+  rw [pct_fresh cfg pcfg pcfg_good memtype _ _ _ s hs (memTotal ls) (C13_meminfo_total ls hm) v hval']
+  by_cases h0 : 0 < memTotal ls
+  · rw [pctOf_pos v _ h0, if_pos h0]
+  · have : memTotal ls = 0 := by omega
+    rw [this, pctOf_zero]
+    simp
+
+/-- **C13_percent_cached_total.** What the code does with a non-zero `_TOTAL_PHYMEM`: the answer
+    is relative to THAT number whatever `/proc/meminfo` says now (it is not read), and the cache
+    is left as it is — `memory_percent` never refreshes it. -/
+theorem C13_percent_cached_total (memtype : String) (info full : Res (List Nat)) (meminfo : Bytes)
+    (t : Nat) (ht : t ≠ 0) :
+    memoryPercentS cfg pcfg memtype info full meminfo ⟨some t⟩
+      = (answer (pctValue cfg memtype info full) t, ⟨some t⟩) :=
+  pct_cache_wins cfg pcfg pcfg_good memtype info full meminfo t ht
+
+/-- **C13_percent_history.** Any interleaving of `virtual_memory()` and `memory_percent(…)` calls
+    and rewrites of `/proc/meminfo` during which the kernel's total stays `T`: every answer is
+    relative to `T` (cache empty or already `T` at the start). -/
+theorem C13_percent_history (info full : Res (List Nat)) (T : Nat) (ops : List POp) (mi : Bytes)
+    (s : PState) (hmi : vmTotal pcfg mi = .ok T)
+    (hops : ∀ b, POp.setMeminfo b ∈ ops → vmTotal pcfg b = .ok T)
+    (hs : s.cache = none ∨ s.cache = some T) :
+    runP cfg pcfg info full ops mi s = runFixed cfg info full T ops :=
+  runP_fixed cfg pcfg pcfg_good info full T ops mi s hmi hops hs
+
+/-- **C13_bad_memtype_state.** An unknown name: ValueError, nothing read, cache untouched. -/
+theorem C13_bad_memtype_state (memtype : String) (info full : Res (List Nat)) (meminfo : Bytes)
+    (s : PState) (h : memtype ∉ pfullmemNames) :
+    memoryPercentS cfg pcfg memtype info full meminfo s = (.error .valueError, s) :=
+  pct_value_error cfg pcfg memtype info full meminfo s _ (pctValue_bad cfg cfg_good memtype info full h)
+
+/-- the literal reading of "percent of total physical memory": every answer is relative to the
+    total the kernel reports AT THE TIME OF THE CALL — false of the code as it is -/
+def C13_percent_current_total_Full : Prop :=
+  ∀ (info full : Res (List Nat)) (ops : List POp) (mi : Bytes),
+    runP cfg pcfg info full ops mi ⟨none⟩ = runCurrent cfg pcfg info full ops mi
+
+def mi1 : Bytes := renderMeminfo [⟨bMemTotal, 4, true⟩, ⟨bMemFree, 1, true⟩]
+def mi2 : Bytes := renderMeminfo [⟨bMemTotal, 8, true⟩, ⟨bMemFree, 1, true⟩]
+
+/-- **Stale total.** `memory_percent()`, then the machine's memory doubles (4 kB → 8 kB), then
+    `memory_percent()` again: the code answers 100 % twice, the current total gives 100 % then 50 %. -/
+theorem C13_percent_stale_total_counterexample : ¬ C13_percent_current_total_Full := by
+  intro h
+  have := congrArg pctVals (h (.ok [4096, 0, 0, 0, 0, 0, 0]) (.error .valueError)
+    [.pct "rss", .setMeminfo mi2, .pct "rss"] mi1)
+  revert this
+  decide +kernel
+
+/-- … and an explicit `virtual_memory()` call in between refreshes the cache. -/
+example : pctVals (runP cfg pcfg (.ok [4096, 0, 0, 0, 0, 0, 0]) (.error .valueError)
+      [.pct "rss", .setMeminfo mi2, .vm, .pct "rss"] mi1 ⟨none⟩) = [some 100, none, none, some 50] := by
+  decide +kernel
 
 end Psutil.C13
